@@ -1,11 +1,71 @@
 import PolyVerif.Model.GenbankBuild
 import PolyVerif.Spec.GbStrict
+import PolyVerif.Lemmas.GbBuild
 /-
 C03 — GenBank write-then-read is the identity; writing is deterministic; the written text
 follows the flat-file layout.
 -/
 namespace PolyVerif.Props.C03
 open PolyVerif PolyVerif.StrBuild PolyVerif.GenbankBuild PolyVerif.Spec.GbStrict
+open PolyVerif.Lemmas.GbBuild
+
+/-! ### determinism -/
+
+theorem buildFeatureString_order (f : Feature) (o₁ o₂ : List Nat) :
+    buildFeatureString f o₁ = buildFeatureString f o₂ := by
+  unfold buildFeatureString
+  rw [sorted_rangeKeys f.attributes o₁ o₂]
+
+theorem buildFeatures_order (q₁ q₂ : Nat → List Nat) : ∀ (fs : List Feature) (i : Nat),
+    buildFeatures q₁ i fs = buildFeatures q₂ i fs
+  | [], _ => rfl
+  | f :: fs, i => by
+    simp only [buildFeatures]
+    rw [buildFeatureString_order f (q₁ i) (q₂ i), buildFeatures_order q₁ q₂ fs (i + 1)]
+
+/-- Writing is deterministic: whatever order the Go runtime visits `Meta.Other` and every
+feature's `Attributes` in, `Build` returns the same bytes.  (`MapOrders` ranges over ALL
+iteration orders: `permute_perm`, `permute_surjective`.) -/
+theorem build_deterministic (x : Sequence) (o₁ o₂ : MapOrders) : build x o₁ = build x o₂ := by
+  unfold build
+  simp only []
+  rw [sorted_rangeKeys x.metadata.other o₁.other o₂.other, buildFeatures_order o₁.quals o₂.quals]
+
+/-- non-vacuity: two maps, two genuinely different visiting orders -/
+example :
+    let m : List (Str × Str) := [("b".toList, "2".toList), ("a".toList, "1".toList), ("c".toList, "3".toList)]
+    rangeKeys [2, 1, 0] m ≠ rangeKeys [] m ∧ sortStrings (rangeKeys [2, 1, 0] m) = ["a".toList, "b".toList, "c".toList] := by
+  decide
+
+/-! ### word wrap -/
+
+/-- For every text without newline whose only white space is the blank, and every limit,
+`WrapString` replaces some runs of blanks by one newline each (and may drop a final run of
+blanks); it never touches a word. -/
+theorem wrap_breaks_only_at_blanks (t : Str) (lim : Nat) (h : Plain t) : Wrapped (wrapString t lim) t :=
+  wrapString_wrapped t lim h
+
+/-- wrap / unwrap inversion, the lemma the round trip of every metadata field rests on: for
+single-spaced text of ANY length (words of any length, any wrap limit), joining the lines
+`WrapString` produces with single blanks gives the text back. -/
+theorem wrap_unwrap (t : Str) (lim : Nat) (h : singleSpaced t = true) :
+    joinSp (splitChar '\n' (wrapString t lim)) = t := by
+  rw [splitChar_nl_eq_lines, joinSp_lines]
+  by_cases h0 : t = []
+  · subst h0
+    simp [wrapString, wrapGo, denl]
+  · have hs : spacedFrom false t = true := by simpa [singleSpaced, h0] using h
+    exact (wrapString_wrapped t lim (plain_of_spacedFrom t false hs)).denl_eq false hs
+
+/-- non-vacuity: a text that is wrapped (two breaks at limit 20) -/
+example : singleSpaced "the quick brown fox jumps over the lazy dog again".toList = true
+    ∧ wrapString "the quick brown fox jumps over the lazy dog again".toList 20
+        = "the quick brown fox\njumps over the lazy\ndog again".toList := by decide
+
+/-- the hypothesis is needed: a double blank at a break is lost -/
+example : joinSp (splitChar '\n' (wrapString "aaaa  bbbb".toList 6)) ≠ "aaaa  bbbb".toList := by decide
+
+/-! ### cached or structural location -/
 
 /-- the qualifier lines of a feature: `/key="value"` at column 22, one line each, keys ascending -/
 def qualifierLines (f : Feature) (o : List Nat) : Str :=
